@@ -22,7 +22,8 @@ From Coq Require Import ZArith.
 From TL Require Import Lib.Base Lib.GenTypes Model.LocTypes Gen.LocGen Model.Loc Model.LocRun Actual.LocActual
      Proofs.LocBase Proofs.LocJudge Proofs.LocRender Proofs.LocNesting Proofs.LocMagic Proofs.LocSrp Proofs.LocRust Proofs.LocDry Proofs.LocPrint
      Gen.LocPatGen Model.LocPat Proofs.LocPat
-     Model.LocLazyTypes Gen.LocLazyGen Model.LocLazy Proofs.LocLazy.
+     Model.LocLazyTypes Gen.LocLazyGen Model.LocLazy Proofs.LocLazy
+     Gen.LocTsPatGen Model.LocTsPat Proofs.LocTsPat.
 From TL Require Model.Skel Model.Nesting Model.MagicNum Model.Magic Model.SrpTypes Model.Srp Model.RustSafetyTypes Model.RustSafety
      Model.DryPipe Model.Dry Model.Embed Model.PrintStmt.
 
@@ -198,6 +199,38 @@ Theorem C12_console_report_position : forall methods root l c m, In (l, c, m) (c
   exists n, tsub n root /\ tty n = "call_expression" /\ l = trow n + 1 /\ c = 0 /\ smem m methods = true.
 Proof. exact console_report_position. Qed.
 Print Assumptions C12_console_report_position.
+
+(* TypeScript pattern linters (string-concat-in-loop, CQS): whatever the detector selects (an oracle), a report is computed from the
+   start row / column of a node of the tree-sitter tree whose type is one of those read from the source - and every selected node of
+   such a type is reported *)
+Theorem C12_ts_pattern_linters_report_their_node : forall s sel root r, In r (tpat_walk s sel root) ->
+  exists n, tsub n root /\ smem (tty n) (ps_classes s) = true /\ sel n = true
+            /\ r = (eval_line (ps_line s) (trow n), eval_col (ps_col s) (tcol n)).
+Proof. exact tpat_reports_node. Qed.
+Print Assumptions C12_ts_pattern_linters_report_their_node.
+
+Theorem C12_ts_pattern_linters_report_every_selected_node : forall s sel root n, tsub n root -> smem (tty n) (ps_classes s) = true -> sel n = true ->
+  In (eval_line (ps_line s) (trow n), eval_col (ps_col s) (tcol n)) (tpat_walk s sel root).
+Proof. exact tpat_reports_complete. Qed.
+Print Assumptions C12_ts_pattern_linters_report_every_selected_node.
+
+Theorem C12_ts_pattern_sites :
+  map (fun k => option_map (fun s => (ps_classes s, ps_line s, ps_col s)) (tsite_of k)) ["perf-ts"; "cqs-ts"]
+  = [Some (["augmented_assignment_expression"], LBase0 1, CNode 0);
+     Some (["function_declaration"; "arrow_function"; "method_definition"; "function"], LBase0 1, CNode 0)].
+Proof. exact tpat_sites_fact. Qed.
+Print Assumptions C12_ts_pattern_sites.
+
+Theorem C12_ts_pattern_report_position : forall linter s sel root l c, In linter ["perf-ts"; "cqs-ts"] -> tsite_of linter = Some s ->
+  In (l, c) (tpat_walk s sel root) ->
+  exists n, tsub n root /\ smem (tty n) (ps_classes s) = true /\ l = trow n + 1 /\ c = tcol n.
+Proof. exact tpat_report_position. Qed.
+Print Assumptions C12_ts_pattern_report_position.
+
+Theorem C12_ts_pattern_judge_is_sound : forall s root l c, tpat_hit s root (l, c) = true ->
+  exists n, tsub n root /\ smem (tty n) (ps_classes s) = true /\ l = eval_line (ps_line s) (trow n) /\ c = eval_col (ps_col s) (tcol n).
+Proof. exact tpat_hit_sound. Qed.
+Print Assumptions C12_ts_pattern_judge_is_sound.
 
 (* ---------------------------------------------------------------- D''. the lazy-ignores line scanner *)
 (* PythonIgnoreDetector.find_ignores / TestSkipDetector.find_skips modelled in full except for the per-line regex search
